@@ -3,6 +3,8 @@ From Coq Require Import List NArith String Bool.
 From Gen Require Import Tables.
 From Model Require Import Base Names Flt Matches Detect.
 From Proofs Require Import FloatLaws DetectWindow.
+From Model Require Import F32.
+From Proofs Require Import F32Laws.
 Open Scope N_scope.
 
 (* the whole result is identical under any window parameters that also cover the input *)
@@ -39,3 +41,15 @@ Theorem C13_same_text_same_chaos :
     exists m2 x2, v2 = Accept FO m2 x2 /\ m_chaos FO m2 = m_chaos FO m1 /\ m_text FO m2 = m_text FO m1.
 Proof. intros FO R FL. exact (same_text_same_chaos FO R FL). Qed.
 Print Assumptions C13_same_text_same_chaos.
+
+(* binary32 instance: no float hypothesis left *)
+Theorem C13_chaos_function_binary32 :
+  forall (R : oracles F32ops),
+    (forall e l t, sdecode F32ops R e l = Some t -> len t <= len l) ->
+  forall b cfg inc exc e m x,
+    len b <= chunk_size F32ops cfg * steps F32ops cfg -> len b <= TOO_BIG_SEQUENCE ->
+    probe F32ops R (make_ctx F32ops R b cfg inc exc) e = Ok (Accept F32ops m x) ->
+    exists t, m_text F32ops m = Some t /\ m_chaos F32ops m = chaos_fn F32ops R t (threshold F32ops cfg)
+              /\ fge F32ops (chaos_fn F32ops R t (threshold F32ops cfg)) (threshold F32ops cfg) = false.
+Proof. intros R. exact (C13_chaos_function F32ops R F32_FloatLaws). Qed.
+Print Assumptions C13_chaos_function_binary32.
